@@ -29,6 +29,9 @@ type gcState struct {
 	untagged, dangling, withSubj, emptyRepo bool
 	grace                                   time.Duration
 	age                                     map[string]map[string]time.Duration // repo -> digest -> age
+	// manBlobDelete (C06 only): the blob of a manifest may be deleted through the blob API, which leaves its index
+	// entry behind for the next pass to clean up
+	manBlobDelete bool
 }
 
 func newGCState(t *rapid.T, st *Stats, forceOld bool) (*gcState, func()) {
@@ -518,7 +521,11 @@ func (g *gcState) opPushManifest(t *rapid.T) {
 func (g *gcState) opDelete(t *rapid.T) {
 	rn := rapid.SampledFrom(gcRepos).Draw(t, "repo")
 	mr := g.repo(rn)
-	switch rapid.IntRange(0, 2).Draw(t, "what") {
+	top := 2
+	if g.manBlobDelete {
+		top = 3
+	}
+	switch rapid.IntRange(0, top).Draw(t, "what") {
 	case 0:
 		if len(mr.tags) == 0 {
 			g.skip(t, "no tags")
@@ -556,6 +563,42 @@ func (g *gcState) opDelete(t *rapid.T) {
 			g.abandon("blob delete refused")
 		}
 		delete(mr.blobs, d)
+	case 3:
+		// DELETE blobs/<digest of a manifest>: only for manifests nothing else refers to, so that the model stays exact
+		cands := []string{}
+		for _, d := range sortedKeys(mr.mans) {
+			free := !mr.fuzzy[d] && mr.mans[d].subject == ""
+			for _, tg := range mr.tags {
+				if tg == d {
+					free = false
+				}
+			}
+			for _, o := range mr.mans {
+				if o.subject == d {
+					free = false
+				}
+				for _, x := range o.refs {
+					if x == d {
+						free = false
+					}
+				}
+			}
+			if free {
+				cands = append(cands, d)
+			}
+		}
+		if len(cands) == 0 {
+			g.skip(t, "no free-standing untagged manifest")
+		}
+		d := rapid.SampledFrom(cands).Draw(t, "manifestBlob")
+		r := g.do("DELETE", "/v2/"+rn+"/blobs/"+d, nil, nil)
+		g.logf("deleteBlob %s %s (a manifest: its index entry stays behind) -> %d", rn, short(d), r.code)
+		if r.code != 202 {
+			g.abandon("blob delete refused")
+		}
+		g.modelDeleteDigest(rn, d)
+		delete(mr.blobs, d)
+		g.class("manifest-blob-deleted")
 	}
 }
 
